@@ -40,6 +40,8 @@ type ReqIO struct {
 	ctx    context.Context
 	cancel context.CancelFunc
 
+	goneErr error // what a body Read reports after a disconnect (nil: errClientGone); set before the run starts
+
 	mu       sync.Mutex // guards everything below except the mirrors
 	in       []byte     // sent by the client, not yet read by the server
 	inEOF    bool       // client half-closed
@@ -176,6 +178,9 @@ func (q *ReqIO) read(p []byte, label string) (int, error) {
 	q.readsTotal++
 	switch {
 	case q.aborted:
+		if q.goneErr != nil {
+			return 0, q.goneErr
+		}
 		return 0, errClientGone
 	case q.closed:
 		return 0, http.ErrBodyReadAfterClose
